@@ -104,7 +104,7 @@ func TestExhaustiveKinds(t *testing.T) {
 					return false
 				}
 				listLen := func(int) int { return ll }
-				n := synth.Build(s, &synth.Markers{}, present, listLen, nil)
+				n := synth.Build(s, &synth.Markers{Deep: true}, present, listLen, nil)
 				harness.Eval()
 				total++
 				d := synth.Describe(s, present, listLen)
